@@ -65,7 +65,7 @@ impl Exec for UnaryOperation {
             UnaryOperator::Return => return Err(ExecStop::Return(var)),
             UnaryOperator::Indirection => indirection::exec(var),
             UnaryOperator::FunctionCall => var.into_function().unwrap().exec(interpreter)?,
-            UnaryOperator::Collect => collect::exec(var, interpreter)?,
+            UnaryOperator::Collect => collect::exec(var)?,
             UnaryOperator::Iter => iter::exec(var),
             UnaryOperator::All
             | UnaryOperator::Any
